@@ -309,53 +309,73 @@ package diam
 //@   ensures nonneg: n >= 0 && n < 1<<46
 //@ end
 //@
+//@ # one byte stream, or one per stream number (MultistreamReader): src(r, s) is the reader whose cursor a read moves
+//@ spec single(r io.Reader) bool = !implements(r, MultistreamReader)
+//@ spec src(r io.Reader, s uint) io.Reader = implements(r, MultistreamReader) ? substream(r, s) : r
 //@ func (*Message).readHeader(m, r, buf) (cmd, stream, err)
-//@   property C03 C05
-//@   requires m != nil && r != nil && buf != nil && cap(bufslice(buf)) >= 20 && !implements(r, MultistreamReader)
+//@   property C03 C05 C19
+//@   requires m != nil && r != nil && buf != nil && cap(bufslice(buf)) >= 20
 //@   requires m.dictionary != nil ==> pwf(m.dictionary)
-//@   requires stream_wf: 0 <= pos(r) && pos(r) <= len(stream(r))
+//@   requires stream_wf: single(r) ==> 0 <= pos(r) && pos(r) <= len(stream(r))
+//@   requires streams_wf: !single(r) ==> forall s uint :: 0 <= pos(substream(r, s)) && pos(substream(r, s)) <= len(stream(substream(r, s)))
 //@   assume default_dictionary_initialised: dict.Default != nil && pwf(dict.Default)
-//@   modifies m.Header, pos(r), bufslice(buf)[0:20]
-//@   ensures [C05] consumed: err == nil ==> pos(r) == old(pos(r)) + 20 && m.Header != nil && cmd != nil && hdr_wire(m.Header, stream(r)[old(pos(r)):])
+//@   modifies m.Header, pos(any), curstream(r), bufslice(buf)[0:20]
+//@   ensures [C19] no_other_stream_consumed: !single(r) ==> forall s uint :: s != stream ==> pos(substream(r, s)) == old(pos(substream(r, s)))
+//@   ensures [C19] cursors_stay_within_their_streams: !single(r) ==> forall s uint :: 0 <= pos(substream(r, s)) && pos(substream(r, s)) <= len(stream(substream(r, s)))
+//@   ensures [C19] header_from_one_stream: !single(r) && err == nil ==> pos(substream(r, stream)) == old(pos(substream(r, stream))) + 20 && m.Header != nil && cmd != nil &&
+//@           hdr_wire(m.Header, stream(substream(r, stream))[old(pos(substream(r, stream))):]) && m.Header.MessageLength < 1<<24 && stream != InvalidStreamID
+//@   ensures [C19] reader_pinned_to_the_header_stream: !single(r) && err == nil ==> curstream(r) == stream
+//@   ensures [C05] consumed: single(r) ==> (err == nil ==> pos(r) == old(pos(r)) + 20 && m.Header != nil && cmd != nil && hdr_wire(m.Header, stream(r)[old(pos(r)):]))
 //@   ensures [C03 C05] length_is_24_bit: err == nil ==> m.Header.MessageLength < 1<<24
-//@   ensures [C05] eof: old(pos(r)) == len(stream(r)) ==> err == io.EOF
-//@   ensures [C05] truncated: old(pos(r)) < len(stream(r)) && old(pos(r)) + 20 > len(stream(r)) ==> err != nil && err != io.EOF
-//@   ensures [C05] at_most_header: pos(r) <= old(pos(r)) + 20 && old(pos(r)) <= pos(r)
-//@   ensures [C05] within_stream: pos(r) <= len(stream(r))
-//@   ensures [C05] header_needs_20: err == nil ==> old(pos(r)) + 20 <= len(stream(r))
-//@   ensures [C05] whole_header_taken: old(pos(r)) + 20 <= len(stream(r)) ==> pos(r) == old(pos(r)) + 20
+//@   ensures [C05] eof: single(r) ==> (old(pos(r)) == len(stream(r)) ==> err == io.EOF)
+//@   ensures [C05] truncated: single(r) ==> (old(pos(r)) < len(stream(r)) && old(pos(r)) + 20 > len(stream(r)) ==> err != nil && err != io.EOF)
+//@   ensures [C05] at_most_header: single(r) ==> (pos(r) <= old(pos(r)) + 20 && old(pos(r)) <= pos(r))
+//@   ensures [C05] within_stream: single(r) ==> (pos(r) <= len(stream(r)))
+//@   ensures [C05] header_needs_20: single(r) ==> (err == nil ==> old(pos(r)) + 20 <= len(stream(r)))
+//@   ensures [C05] whole_header_taken: single(r) ==> (old(pos(r)) + 20 <= len(stream(r)) ==> pos(r) == old(pos(r)) + 20)
 //@ end
 //@
 //@ func (*Message).readBody(m, r, buf, cmd, stream) (err)
-//@   property C03 C05 C06
-//@   requires m != nil && m.Header != nil && r != nil && buf != nil && cmd != nil && !implements(r, MultistreamReader)
+//@   property C03 C05 C06 C19
+//@   requires m != nil && m.Header != nil && r != nil && buf != nil && cmd != nil
 //@   requires m.dictionary != nil ==> pwf(m.dictionary)
 //@   requires pool_buffer: cap(bufslice(buf)) >= 20
 //@   requires decoded_header: m.Header.MessageLength < 1<<24
-//@   requires stream_wf: 0 <= pos(r) && pos(r) <= len(stream(r))
+//@   requires header_stream_known: !single(r) ==> stream != InvalidStreamID
+//@   requires stream_wf: single(r) ==> 0 <= pos(r) && pos(r) <= len(stream(r))
+//@   requires streams_wf: !single(r) ==> forall s uint :: 0 <= pos(substream(r, s)) && pos(substream(r, s)) <= len(stream(substream(r, s)))
 //@   assume default_dictionary_initialised: dict.Default != nil && pwf(dict.Default)
 //@   assume buffer_length_setting: MessageBufferLength >= 20 && MessageBufferLength < 1<<30
-//@   modifies m.AVP, pos(r), bufslice(buf)[0:cap(bufslice(buf))]
-//@   ensures [C03 C05] reject_short_length: m.Header.MessageLength < 20 ==> err != nil && pos(r) == old(pos(r))
-//@   ensures [C05] consumed: err == nil ==> pos(r) == old(pos(r)) + int(m.Header.MessageLength) - 20
-//@   ensures [C05] truncated: m.Header.MessageLength >= 20 && old(pos(r)) + int(m.Header.MessageLength) - 20 > len(stream(r)) ==> err != nil
-//@   ensures [C05] never_beyond: m.Header.MessageLength >= 20 ==> pos(r) <= old(pos(r)) + int(m.Header.MessageLength) - 20
-//@   ensures [C05] monotone: old(pos(r)) <= pos(r) && pos(r) <= len(stream(r))
+//@   modifies m.AVP, pos(any), bufslice(buf)[0:cap(bufslice(buf))]
+//@   ensures [C19] no_other_stream_consumed: !single(r) ==> forall s uint :: s != stream ==> pos(substream(r, s)) == old(pos(substream(r, s)))
+//@   ensures [C19] cursors_stay_within_their_streams: !single(r) ==> forall s uint :: 0 <= pos(substream(r, s)) && pos(substream(r, s)) <= len(stream(substream(r, s)))
+//@   ensures [C19] body_from_the_header_stream: !single(r) && err == nil ==> pos(substream(r, stream)) == old(pos(substream(r, stream))) + int(m.Header.MessageLength) - 20
+//@   ensures [C03 C05] reject_short_length: single(r) ==> (m.Header.MessageLength < 20 ==> err != nil && pos(r) == old(pos(r)))
+//@   ensures [C05] consumed: single(r) ==> (err == nil ==> pos(r) == old(pos(r)) + int(m.Header.MessageLength) - 20)
+//@   ensures [C05] truncated: single(r) ==> (m.Header.MessageLength >= 20 && old(pos(r)) + int(m.Header.MessageLength) - 20 > len(stream(r)) ==> err != nil)
+//@   ensures [C05] never_beyond: single(r) ==> (m.Header.MessageLength >= 20 ==> pos(r) <= old(pos(r)) + int(m.Header.MessageLength) - 20)
+//@   ensures [C05] monotone: single(r) ==> (old(pos(r)) <= pos(r) && pos(r) <= len(stream(r)))
 //@   ensures [C05] header_kept: m.Header == old(m.Header) && m.Header.MessageLength == old(m.Header.MessageLength)
 //@ end
 //@
 //@ func ReadMessage(reader, dictionary) (m, err)
-//@   property C03 C05 C06
-//@   requires reader != nil && !implements(reader, MultistreamReader) && (dictionary != nil ==> pwf(dictionary))
-//@   requires stream_wf: 0 <= pos(reader) && pos(reader) <= len(stream(reader))
-//@   modifies pos(reader), bufslice(any), bytes(any), inpool(any)
-//@   ensures [C05] consumed: err == nil ==> m != nil && m.Header != nil && pos(reader) == old(pos(reader)) + int(be24(stream(reader), old(pos(reader)) + 1))
-//@   ensures [C05] header_read_back: err == nil ==> hdr_wire(m.Header, stream(reader)[old(pos(reader)):])
-//@   ensures [C05] eof_between_messages: old(pos(reader)) == len(stream(reader)) ==> err == io.EOF
-//@   ensures [C05] eof_inside_header: old(pos(reader)) < len(stream(reader)) && old(pos(reader)) + 20 > len(stream(reader)) ==> err != nil && err != io.EOF
-//@   ensures [C05] short_length_rejected: old(pos(reader)) + 20 <= len(stream(reader)) && be24(stream(reader), old(pos(reader)) + 1) < 20 ==> err != nil && pos(reader) == old(pos(reader)) + 20
-//@   ensures [C05] eof_inside_body: old(pos(reader)) + 20 <= len(stream(reader)) && be24(stream(reader), old(pos(reader)) + 1) >= 20 && old(pos(reader)) + int(be24(stream(reader), old(pos(reader)) + 1)) > len(stream(reader)) ==> err != nil
-//@   ensures [C05] never_beyond: old(pos(reader)) + 20 <= len(stream(reader)) && be24(stream(reader), old(pos(reader)) + 1) >= 20 ==> pos(reader) <= old(pos(reader)) + int(be24(stream(reader), old(pos(reader)) + 1))
+//@   property C03 C05 C06 C19
+//@   requires reader != nil && (dictionary != nil ==> pwf(dictionary))
+//@   requires stream_wf: single(reader) ==> 0 <= pos(reader) && pos(reader) <= len(stream(reader))
+//@   requires streams_wf: !single(reader) ==> forall s uint :: 0 <= pos(substream(reader, s)) && pos(substream(reader, s)) <= len(stream(substream(reader, s)))
+//@   modifies pos(any), curstream(reader), bufslice(any), bytes(any), inpool(any)
+//@   ensures [C19] one_stream_per_message: !single(reader) && err == nil ==> m != nil && m.Header != nil &&
+//@           (forall s uint :: s == m.stream ==> pos(substream(reader, s)) == old(pos(substream(reader, s))) + int(m.Header.MessageLength))
+//@   ensures [C19] header_from_that_stream: !single(reader) && err == nil ==> (forall s uint :: s == m.stream ==> hdr_wire(m.Header, stream(substream(reader, s))[old(pos(substream(reader, s))):]))
+//@   ensures [C19] no_other_stream_consumed: !single(reader) && err == nil ==> (forall s uint :: s != m.stream ==> pos(substream(reader, s)) == old(pos(substream(reader, s))))
+//@   ensures [C16 C19] reports_the_stream_it_arrived_on: !single(reader) && err == nil ==> curstream(reader) == m.stream
+//@   ensures [C05] consumed: single(reader) ==> (err == nil ==> m != nil && m.Header != nil && pos(reader) == old(pos(reader)) + int(be24(stream(reader), old(pos(reader)) + 1)))
+//@   ensures [C05] header_read_back: single(reader) ==> (err == nil ==> hdr_wire(m.Header, stream(reader)[old(pos(reader)):]))
+//@   ensures [C05] eof_between_messages: single(reader) ==> (old(pos(reader)) == len(stream(reader)) ==> err == io.EOF)
+//@   ensures [C05] eof_inside_header: single(reader) ==> (old(pos(reader)) < len(stream(reader)) && old(pos(reader)) + 20 > len(stream(reader)) ==> err != nil && err != io.EOF)
+//@   ensures [C05] short_length_rejected: single(reader) ==> (old(pos(reader)) + 20 <= len(stream(reader)) && be24(stream(reader), old(pos(reader)) + 1) < 20 ==> err != nil && pos(reader) == old(pos(reader)) + 20)
+//@   ensures [C05] eof_inside_body: single(reader) ==> (old(pos(reader)) + 20 <= len(stream(reader)) && be24(stream(reader), old(pos(reader)) + 1) >= 20 && old(pos(reader)) + int(be24(stream(reader), old(pos(reader)) + 1)) > len(stream(reader)) ==> err != nil)
+//@   ensures [C05] never_beyond: single(reader) ==> (old(pos(reader)) + 20 <= len(stream(reader)) && be24(stream(reader), old(pos(reader)) + 1) >= 20 ==> pos(reader) <= old(pos(reader)) + int(be24(stream(reader), old(pos(reader)) + 1)))
 //@ end
 //@
 //@ # ======================= reflect.go (only the bookkeeping; the rest is reflection, C18) =====
@@ -679,4 +699,27 @@ package diam
 //@           r.Length == hdrlen(a.Flags) + dlen(a.Data)
 //@   ensures [C01 thorough] same_payload: err == nil && !typeis(a.Data, *GroupedAVP) && !typeis(r.Data, *GroupedAVP) ==>
 //@           dlen(r.Data) <= pad4s(dlen(a.Data)) && forall i int :: 0 <= i && i < dlen(a.Data) ==> dbyte(r.Data, i) == dbyte(a.Data, i)
+//@ end
+//@
+//@ # ======================= server.go: reading the next message of a connection (C19) =====
+//@ iface diam.MultistreamConn.ResetCurrentStream(r)
+//@   trusted
+//@   modifies curstream(r)
+//@   ensures unpinned: curstream(r) == 18446744073709551615
+//@ end
+//@ func (*conn).readMessage(c) (m, err)
+//@   property C19
+//@   requires c != nil && c.server != nil && c.rwc != nil && (c.server.Dict != nil ==> pwf(c.server.Dict))
+//@   requires buffered: !implements(c.rwc, MultistreamConn) ==> c.buf != nil && c.buf.Reader != nil && 0 <= pos(c.buf.Reader) && pos(c.buf.Reader) <= len(stream(c.buf.Reader)) && !implements(c.buf.Reader, MultistreamReader)
+//@   requires streams_wf: implements(c.rwc, MultistreamConn) ==> implements(c.rwc, MultistreamReader) && forall s uint :: 0 <= pos(substream(c.rwc, s)) && pos(substream(c.rwc, s)) <= len(stream(substream(c.rwc, s)))
+//@   assume default_dictionary_initialised: dict.Default != nil && pwf(dict.Default)
+//@   atcall ReadMessage: [C19] unpinned_before_each_message: implements(c.rwc, MultistreamConn) ==> curstream(c.rwc) == InvalidStreamID
+//@   ensures [C19] nothing_without_error: err == nil <==> m != nil
+//@ end
+//@ func (*conn).dictionary(c) (d)
+//@   property C19
+//@   pure
+//@   requires c != nil && c.server != nil
+//@   assume default_dictionary_initialised: dict.Default != nil && pwf(dict.Default)
+//@   ensures which: d == (c.server.Dict == nil ? dict.Default : c.server.Dict)
 //@ end
